@@ -14,6 +14,7 @@ import (
 	"sort"
 	"strings"
 	"sync/atomic"
+	"syscall"
 	"time"
 
 	"verif/sim/choice"
@@ -223,6 +224,19 @@ func Execute(sc Scenario, src *choice.Source, o Opts) (res Result) {
 		res.Steps = r.W.Step
 		for k, v := range r.W.Stats.Probes {
 			r.Probes[k] += v
+		}
+		if r.W.FS.Coalesced > 0 {
+			r.Probes["inotify_event_coalesced"]++
+		}
+		for _, h := range r.W.FS.Hist {
+			switch {
+			case h.Op == "inotify_init" && h.Err == syscall.EMFILE:
+				r.Probes["emfile_on_newwatcher"]++
+			case h.Op == "open" && h.Err == syscall.ENOENT && (strings.HasSuffix(h.Path, ".json") || strings.HasSuffix(h.Path, ".yaml")) && h.Proc == "app":
+				r.Probes["file_vanished_between_listing_and_reading"]++
+			case h.Op == "inotify_add_watch" && h.Err == 0 && h.Step > 0 && strings.HasPrefix(h.Proc, "app") && h.N > 1:
+				r.Probes["directory_readded_to_watch"]++
+			}
 		}
 	}
 	res.Viol = r.Viol
